@@ -282,7 +282,7 @@ def expand_arrays(f):
 def ackermannize(fs, stats):
     """fs: list of ground formulas.  Returns (new formulas, axioms)."""
     memo = {}
-    tables = {"exp": [], "log": [], "pow": [], "wsum": [], "select": [], "round": [], "sine": []}
+    tables = {"exp": [], "log": [], "pow": [], "wsum": [], "select": [], "round": [], "sine": [], "rdepth": []}
     byid = {}
     cnt = itertools.count()
 
@@ -293,7 +293,7 @@ def ackermannize(fs, stats):
         name = None
         if k == z3.Z3_OP_SELECT and z3.is_app(nch[0]) and nch[0].decl().kind() == z3.Z3_OP_UNINTERPRETED:
             name = "select"      # base arrays: constants, and applications of the ghost weight family efac(z)
-        elif k == z3.Z3_OP_UNINTERPRETED and t.decl().name() in ("exp", "log", "pow", "wsum", "sine") and t.num_args() > 0:
+        elif k == z3.Z3_OP_UNINTERPRETED and t.decl().name() in ("exp", "log", "pow", "wsum", "sine", "rdepth") and t.num_args() > 0:
             name = t.decl().name()
         elif k == z3.Z3_OP_UNINTERPRETED and t.decl().name().startswith("round_") and t.num_args() == 1:
             name = "round"
@@ -346,6 +346,12 @@ def ackermannize(fs, stats):
     # --- sin: only its range; pi: a rational enclosure
     for c, (x,) in tables["sine"]:
         ax += [c >= -1, c <= 1]
+    # --- rdepth(z, zmin): ASSUMED contract of the layer walk (bounded-checked by e3/root_helper.py): between zmin and z, non-decreasing in z
+    RD = tables["rdepth"]
+    for c, (x, m) in RD:
+        ax += [z3.Implies(x >= m, z3.And(c >= m, c <= x))]
+    for (c1, (x1, m1)), (c2, (x2, m2)) in itertools.combinations(RD, 2):
+        ax += [z3.Implies(z3.And(m1 == m2, x1 <= x2), c1 <= c2), z3.Implies(z3.And(m1 == m2, x2 <= x1), c2 <= c1)]
     pi = z3.Real("pi!const")
     ax += [pi > z3.RealVal("3.14159"), pi < z3.RealVal("3.1416")]
     # --- exp
